@@ -36,7 +36,7 @@ def describe(tier):
         "scan_node activations - 1, read by the registry wrapper) and the multiset of (level, searched value) passes equals that of the reference procedure run with budget k (so descending into decoder-supplied sub-structure costs one level per nesting level); the scan terminates although modes rd/rk/dT make every decoded value "
         "decodable again. Oracle (ii) for every pair (k, k+1): tree(k) == tree(k+1) with every node produced by the deepest search pass "
         "(level k) removed -- which implies the order-preserving sub-list relation of every child list. 'layers' = base64^n, hex^n, "
-        "(concat o base64)^n for n=1..12 on the shipped registry x k=-1..13. Caller-stack axis: every 1-hit configuration (N=3, modes rd/rk/rp) and base64^12 at k=-1..13 is "
+        "(concat o base64)^n for n=1..12 on the shipped registry x k=-1..13. Decoded-volume axis: one scan producing ~9 x s bytes of decoded data (s up to 3 MiB, thorough 32 MiB) before a later sibling that decodes again, at k=-1..12. Caller-stack axis: every 1-hit configuration (N=3, modes rd/rk/rp) and base64^12 at k=-1..13 is "
         f"scanned from a recursive caller with (frames already on the stack, recursion limit) in {CALLER_DEPTHS}: same passes as the model, same tree as from a shallow caller "
         "(a scan for which the caller left too little stack, RecursionError, is skipped). Non-trivial = a pair (k,k+1) whose trees differ.",
         "bounds": BOUNDS[tier],
@@ -57,7 +57,26 @@ def plan(tier, seed):
         units.append((tier, "layers", kind))
     for d in CALLER_DEPTHS:
         units.append((tier, "callstack", d))
+    for s in VOLUMES[tier]:
+        units.append((tier, "volume", s))
     return units
+
+
+# total amount of decoded data produced by ONE scan (a budget on it would make a deeper limit starve later siblings): one blob of s bytes under
+# 9 layers, followed by a small blob under 3 layers; total decoded volume ~ 9 * s
+VOLUMES = {"quick": (4096, 65536, 1 << 20, (2 << 20) + 1, 3 << 20), "thorough": (4096, 65536, 1 << 20, (2 << 20) + 1, 3 << 20, 8 << 20, 32 << 20)}
+
+
+def _peel(value):
+    """Synthetic layered decoder: every blank-separated token '#<n><rest>' with n in 1..9 decodes to '#<n-1><rest>'."""
+    from multidecoder.node import Node
+
+    out, pos = [], 0
+    for tok in value.split(b" "):
+        if len(tok) >= 2 and tok[:1] == b"#" and 0x31 <= tok[1] <= 0x39:
+            out.append(Node("layer", b"#" + bytes([tok[1] - 1]) + tok[2:], "peel", pos, pos + len(tok)))
+        pos += len(tok) + 1
+    return out
 
 
 # The caller's own stack depth is an environment answer: a scan started from a deeply recursive caller (or under a different
@@ -269,6 +288,13 @@ def run_unit(unit, rec):
                               f"12 base64 layers, depth limit {k}: the tree of a scan started with {caller[0]} frames on the stack (recursion limit {caller[1]}) differs from the "
                               f"tree of the same scan started from a shallow caller", 12000 + k)
         rec.sample({"callstack": list(caller), "synthetic_configurations": n, "ks": "-1..13"})
+    elif kind == "volume":
+        s = unit[2]
+        data = b"#9" + b"a" * s + b" #3bbbbbbbb"
+        ks = tuple(range(-1, 13))
+        w = {"engine": "volume", "size": s, "ks": list(ks)}
+        check_ladder(rec, lambda k: trees.iscan([_peel], data, k), data, ks, w, s // 1024, ("volume", s))
+        rec.sample({"volume": s, "total_decoded_bytes": 9 * s, "ks": "-1..12"})
     elif kind == "layers":
         reg = streams.registry()
         for n in range(1, b["layers"] + 1):
@@ -287,6 +313,8 @@ def replay(w, rec):
     ks = tuple(sorted(set(w.get("ks", [])) | {k - 1, k, k + 1}))
     if eng == "hitx-ladder":
         synth(rec, w["T"], tuple(tuple(h) for h in w["hits"]), w["mode"], w["grouped"], ks, caller=tuple(w["caller"]) if w.get("caller") else None)
+    elif eng == "volume":
+        run_unit(("quick", "volume", w["size"]), rec)
     elif eng == "layers-callstack":
         run_unit(("quick", "callstack", tuple(w["caller"])), rec)
     elif eng == "stream-ladder":
